@@ -49,12 +49,24 @@ static std::string handle(const Toks & t)
     double p = vp::parseD(t[1]); size_t w = vp::parseU(t[2]);
     if (w == 0) { throw vp::BadOp(); }
     reset();
-    if (op == "avg.new") { avg.reset(new AvgX(p, w)); } else { var.reset(new VarX(p, w)); }
+    // both construction paths in turn: (precision, window) and (precision) followed by setWindowSize(window)
+    static unsigned long made = 0;
+    if (++made % 2 == 0) {
+      if (op == "avg.new") { avg.reset(new AvgX(p, w)); } else { var.reset(new VarX(p, w)); }
+    } else {
+      if (op == "avg.new") { avg.reset(new AvgX(p)); avg->setWindowSize(w); } else { var.reset(new VarX(p)); var->setWindowSize(w); }
+    }
     return describe();
   }
   if (op == "stat.upd" && t.size() == 2) {
     if (!avg && !var) { throw vp::BadOp(); }
     double v = vp::parseD(t[1]);
+    // VALUE SEMANTICS: every fifth update the object is replaced by a COPY of itself (copy constructor) and the original destroyed:
+    // a copy carries the whole window state
+    static unsigned long updates = 0;
+    if (++updates % 5 == 0) {
+      if (avg) { std::unique_ptr<AvgX> c(new AvgX(*avg)); avg = std::move(c); } else { std::unique_ptr<VarX> c(new VarX(*var)); var = std::move(c); }
+    }
     if (avg) { avg->update(v); } else { var->update(v); }
     return describe();
   }
@@ -70,6 +82,8 @@ static std::string handle(const Toks & t)
   if (op == "ring.app" && t.size() == 2) {
     if (!ring) { throw vp::BadOp(); }
     double v = static_cast<double>(vp::parseU(t[1]));
+    static unsigned long appends = 0;
+    if (++appends % 4 == 0) { std::unique_ptr<RingOfEigenVector<Eigen::Vector2d>> c(new RingOfEigenVector<Eigen::Vector2d>(*ring)); ring = std::move(c); }
     ring->append(Eigen::Vector2d(v, -v));
     return "size " + std::to_string(ring->size());
   }
